@@ -41,6 +41,7 @@ TRUSTED = [
     "Lean 4 kernel",
     "harness/extract.py: recognition of push/try-finally-pop, bind-before-push, __exit__",
     "CPython try/finally semantics",
+    "harness/translate_wrap.py (recognisers of the statements of the jaxtyped wrappers, _JaxtypingContext and _get_problem_arg) and the interpreters Model/WrapDsl.lean / Model/BlameDsl.lean (the typechecker passes, the one-parameter checker and message-text statements are primitives)",
 ]
 
 
